@@ -1,6 +1,7 @@
 import Logrange.Proofs.RdPos
 import Logrange.Proofs.RdIterFwd
 import Logrange.Proofs.RdPaging
+import Logrange.Proofs.RdQueryLift
 import Logrange.Generated.C03
 /-!
 # C03 — Paged and resumed reading delivers every matching event exactly once
@@ -114,20 +115,29 @@ theorem appends_between_pages (name : Nat) (w : Bool) (j0 : Journal) (l0 : Nat) 
         evs.length < st.limit → R = []) :=
   pg_pages_grow getFwd nextFwd grows j0 l0 steps hne hs hch
 
-/-! ### the same chain through `Querier.Query` and the provider (statement; instance `paging_j3` below) -/
+/-! ### the same chain through `Querier.Query` and the provider -/
 
 /-- one partition, un-ranged: the server with that partition, a chain of pages -/
 def onePart (j : Journal) : Server := { store := [(0, j)] }
 def qAll (w : Bool) : Qry := { text := 1, where_ := w }
 def keepOf (w : Bool) (r : Rec) : Bool := !w || r.keep
 
-/-- the cursor-level theorem `paging` lifted to `Logrange.Rd.pages` (request ids, held cursors, `Resume`) -/
+/-- the statement of `paging` at the level of `Logrange.Rd.pages`: `Querier.Query` with its limit clamp and cache
+flag, the provider (held cursor found by request id + `ApplyState`, new cursor otherwise, ids zeroed on release of
+an un-held cursor) and a client that follows / zeroes the id / sends only the position / meets an evicted cursor -/
 def paging_query_level_stmt : Prop :=
   ∀ (j : Journal) (w : Bool) (l0 : Nat) (steps : List Step), Sorted j →
     (∀ s ∈ steps, s.store' = none ∧ s.perm = []) →
     (pages queryMaxLimit (onePart j) [] { query := some (qAll w), limit := l0, wait := true } steps).flatten
       = (((flat j).filter (keepOf w)).take
           ((l0 :: steps.map (·.limit)).map (fun l => min l queryMaxLimit)).sum)
+
+/-- **paging at the request level**, for all journals, limits (clamped by `QueryMaxLimit`) and resume modes -/
+theorem paging_query_level : paging_query_level_stmt := by
+  intro j w l0 steps hs hall
+  have := ql_pages getFwd nextFwd (j := j) (w := w) hs queryMaxLimit l0 true steps hall
+  have hk : keepOf = keepW := rfl
+  simpa [onePart, qAll, qOne, hk] using this
 
 /-! ### bounded instances, evaluated by the kernel on the model -/
 
@@ -169,6 +179,20 @@ theorem cex_stale_buffer_same_id_older_pos :
     let (s2, p2) := query queryMaxLimit s1 [] p1.next
     let (_, p3) := query queryMaxLimit s2 [] p1.next
     p2.events.map (·.lbl) = [2, 3] ∧ p3.events.map (·.lbl) = [4, 3] := by decide +kernel
+
+/-- #22 on a merged cursor WITHOUT any filter: the `Mixer`'s selected head survives `ApplyState` as well. Two
+partitions, page 1, page 2, page 2's request again: the repeated page starts with the stale head and event 1 is
+lost. -/
+theorem cex_stale_mixer_head_merged :
+    let q : Qry := qAll false
+    let rt (l : Nat) (t : Int) : Rec := { lbl := l, ts := t }
+    let s0 : Server := { store := [(0, [⟨10, [rt 0 10, rt 1 12, rt 2 14], 0, maxU32⟩]),
+                                    (1, [⟨10, [rt 100000 11, rt 100001 13], 0, maxU32⟩])] }
+    let (s1, p1) := query queryMaxLimit s0 [0, 1] { query := some q, limit := 2, wait := true }
+    let (s2, p2) := query queryMaxLimit s1 [0, 1] p1.next
+    let (_, p3) := query queryMaxLimit s2 [0, 1] p1.next
+    p1.events.map (·.lbl) = [0, 100000] ∧ p2.events.map (·.lbl) = [1, 100001] ∧
+      p3.events.map (·.lbl) = [2, 100001] := by decide +kernel
 
 /-- #35: a first page served while no partition matches answers with an empty next request; following it
 never delivers anything once the partition exists, the original request does. -/
